@@ -41,6 +41,10 @@ func (c *c20Case) request() *Request {
 	case "plain-ack", "plain-ack-empty", "plain-ack-ts", "plain-ack-half", "plain-ack-odd":
 		destKind = c.Capability
 		rq.Sack.TS = c.Capability == "plain-ack-ts"
+	case "ok-resyn":
+		// a SACK-capable target that retransmits its SYN-ACK while the run is under way: SACK is available
+		rq.Sack.TS = c.ISN%2 == 0
+		rq.Noise = []NoiseItem{{Anchor: c.MinTTL, Kind: "sack-synack-again", DelayUs: 300}, {Anchor: min(c.MinTTL+1, c.MaxTTL), Kind: "sack-synack-again", DelayUs: 2500}}
 	case "closed":
 		rq.Sack.NoListen = true
 	case "no-synack":
@@ -109,7 +113,7 @@ func checkC20(t *testing.T, c *c20Case, rec *Recorder) []Diff {
 	// "ACKs lacking SACK blocks" only shows when a probe actually reaches the target
 	isPlain := strings.HasPrefix(c.Capability, "plain-ack")
 	plainAckSeen := isPlain && c.DestDist <= c.MaxTTL
-	sackAvailable := c.Capability == "ok" || c.Capability == "ok-ts" || (isPlain && !plainAckSeen)
+	sackAvailable := c.Capability == "ok" || c.Capability == "ok-ts" || c.Capability == "ok-resyn" || (isPlain && !plainAckSeen)
 	unavailable := c.Capability == "no-permit" || c.Capability == "no-options" || plainAckSeen || c.Capability == "closed"
 	wrapsSentinel := func() bool {
 		for _, s := range o.Wire.Fired {
@@ -218,11 +222,11 @@ func checkC20(t *testing.T, c *c20Case, rec *Recorder) []Diff {
 }
 
 var c20Methods = []string{"", "syn", "sack", "prefer_sack", "fin"}
-var c20Caps = []string{"ok-ts", "ok", "no-permit", "no-options", "plain-ack", "plain-ack-empty", "plain-ack-ts", "plain-ack-half", "plain-ack-odd", "closed", "no-synack"}
+var c20Caps = []string{"ok-ts", "ok", "ok-resyn", "no-permit", "no-options", "plain-ack", "plain-ack-empty", "plain-ack-ts", "plain-ack-half", "plain-ack-odd", "closed", "no-synack"}
 var c20Faults = []string{"", "filter1", "filter2", "send", "read", "srcfactory", "sinkfactory"}
 
 func TestC20Table(t *testing.T) {
-	rec := NewRecorder("C20", "C20Table", "full table: method {\"\", syn, sack, prefer_sack, unknown} x target capability {SACK-permitted with/without timestamps, no SACK-permitted, a SYN-ACK without any option, ACKs lacking SACK blocks (no option / SACK option with zero blocks / timestamp option only / SACK option too short for one block: a lone left edge, three bytes), port closed (real ECONNREFUSED on loopback), handshake never captured} x injected non-capability failure {none, first filter, second filter, send, read, source factory, sink factory} x e2e probes {0, 2 (only without injected failure)} x 2 TTL ranges, through RunTraceroute with a real loopback listener; oracle: policy table over probe kinds on the wire, accepted connections and the error chain; exhaustive over the table; non-trivial = method sack/prefer_sack with a non-happy capability or an injected failure")
+	rec := NewRecorder("C20", "C20Table", "full table: method {\"\", syn, sack, prefer_sack, unknown} x target capability {SACK-permitted with/without timestamps, the same with the SYN-ACK retransmitted during the run, no SACK-permitted, a SYN-ACK without any option, ACKs lacking SACK blocks (no option / SACK option with zero blocks / timestamp option only / SACK option too short for one block: a lone left edge, three bytes), port closed (real ECONNREFUSED on loopback), handshake never captured} x injected non-capability failure {none, first filter, second filter, send, read, source factory, sink factory} x e2e probes {0, 2 (only without injected failure)} x 2 TTL ranges, through RunTraceroute with a real loopback listener; oracle: policy table over probe kinds on the wire, accepted connections and the error chain; exhaustive over the table; non-trivial = method sack/prefer_sack with a non-happy capability or an injected failure")
 	rec.Exhaustive = true
 	RunCases(t, rec, func(yield func(*c20Case) bool) {
 		for _, m := range c20Methods {
